@@ -1,5 +1,6 @@
 import Cdecao.Rooms.Possible
 import Cdecao.Model.Rooms
+import Cdecao.Proofs.RoomsProofs
 /-! # C18 — every room listed as possible for a course is really usable
 
 `RS.possible` is the double loop of `calculate_possible_course_room_sizes` on sizes by rank
@@ -43,5 +44,109 @@ theorem C18_dedup (l : List Nat) (v : Nat) : v ∈ RM.dedupAdj l ↔ v ∈ l := 
     simp only [Bool.false_eq_true, if_false, List.mem_cons]
     rw [ih]
     simp
+
+/-! ## end to end: the listing by course (`RM.possibleByCourse`) -/
+
+/-- `RM.orderOk` says exactly: `order` is a permutation of the course indices that sorts the sizes
+    descending (ties in any order) -/
+theorem C18_orderOk_iff (sizes order : List Nat) :
+    RM.orderOk sizes order = true ↔
+      order.length = sizes.length ∧ (List.range sizes.length).Perm order ∧
+      (order.map (fun c => sizes.getD c 0)).Pairwise (fun a b => b ≤ a) :=
+  RMP.orderOk_iff.trans ⟨fun ⟨a, b, c⟩ => ⟨a, b, c⟩, fun ⟨a, b, c⟩ => ⟨a, b, c⟩⟩
+
+/-- the room sort yields a descending permutation, so `RS.Desc` holds for the derived instance -/
+theorem C18_sortDesc (rooms : List Nat) :
+    (RM.sortDesc rooms).Perm rooms ∧ Desc (RM.sortDesc rooms) :=
+  ⟨RMP.sortDesc_perm rooms, RMP.sortDesc_desc rooms⟩
+
+/-- the executable feasibility check `RM.fits` is `RS.Feasible` of the derived rank-wise instance -/
+theorem C18_fits_iff_feasible (sizes order rooms : List Nat) (hO : RM.orderOk sizes order = true) :
+    RM.fits sizes rooms = true ↔ Feasible (RMP.inst sizes order rooms) :=
+  RMP.fits_iff_feasible (RMP.orderOk_facts hO) rooms
+
+/-- `RM.fits` compares ANY descending arrangement of the sizes with ANY descending arrangement of
+    the rooms rank by rank (reads outside are 0) -/
+theorem C18_fits_iff (sizes rooms S R : List Nat) (hS : S.Pairwise (fun a b => b ≤ a)) (hSp : S.Perm sizes)
+    (hR : R.Pairwise (fun a b => b ≤ a)) (hRp : R.Perm rooms) :
+    RM.fits sizes rooms = true ↔ ∀ i, S.getD i 0 ≤ R.getD i 0 :=
+  RMP.fits_iff hS hSp hR hRp
+
+/-- **C18 end to end (soundness).** For a sorting permutation `order` and a room-feasible assignment:
+    every room size `v` listed for course `c` is at least the course's effective size, is the size of
+    an existing room, and there is a complete allocation `g` of distinct room indices to all courses
+    that take place (`RMP.CAlloc`: in range, large enough, injective) in which `c` gets a room of
+    size `v` (in range and not shared with any other course, even if `c` does not take place). -/
+theorem C18_byCourse_sound (sizes order rooms : List Nat) (hO : RM.orderOk sizes order = true)
+    (hF : RM.fits sizes rooms = true) (c : Nat) (hc : c < sizes.length) (v : Nat)
+    (hv : v ∈ (RM.possibleByCourse sizes order rooms).getD c []) :
+    sizes.getD c 0 ≤ v ∧ v ∈ rooms ∧
+    ∃ g : Nat → Nat, RMP.CAlloc sizes rooms g ∧ g c < rooms.length ∧ rooms.getD (g c) 0 = v ∧
+      ∀ c', c' < sizes.length → g c' = g c → c' = c :=
+  RMP.possibleByCourse_sound hO hF c hc v hv
+
+/-- **C18 end to end (non-emptiness).** Every course that takes place is offered a room size. -/
+theorem C18_byCourse_nonempty (sizes order rooms : List Nat) (hO : RM.orderOk sizes order = true)
+    (hF : RM.fits sizes rooms = true) (c : Nat) (hc : c < sizes.length) (hpos : 0 < sizes.getD c 0) :
+    (RM.possibleByCourse sizes order rooms).getD c [] ≠ [] :=
+  (RMP.possibleByCourse_nonempty hO hF c hc hpos).2
+
+/-- the executable specification evaluated by the driver holds for the model's listing -/
+theorem C18_specSound (sizes order rooms : List Nat) (hO : RM.orderOk sizes order = true)
+    (hF : RM.fits sizes rooms = true) :
+    RM.specSound sizes rooms (RM.possibleByCourse sizes order rooms) = true ∧
+    RM.specNonempty sizes (RM.possibleByCourse sizes order rooms) = true :=
+  ⟨RMP.possibleByCourse_specSound hO hF, RMP.possibleByCourse_specNonempty hO hF⟩
+
+/-- the executable specification is itself sound: ANY listing that passes the driver's check
+    `RM.specSound` (e.g. the one printed by the Rust program) consists of room sizes that are large
+    enough, present, and realised by a complete allocation of distinct rooms -/
+theorem C18_spec_meaning (sizes rooms : List Nat) (listed : List (List Nat))
+    (h : RM.specSound sizes rooms listed = true) (c : Nat) (hc : c < sizes.length) (v : Nat)
+    (hv : v ∈ listed.getD c []) :
+    sizes.getD c 0 ≤ v ∧ v ∈ rooms ∧
+    ∃ g : Nat → Nat, RMP.CAlloc sizes rooms g ∧ g c < rooms.length ∧ rooms.getD (g c) 0 = v ∧
+      ∀ c', c' < sizes.length → 0 < sizes.getD c' 0 → g c' = g c → c' = c :=
+  RMP.specSound_sound h c hc v hv
+
+/-- rank-wise fit (`RM.fits`, the room check of the solver) yields a complete allocation -/
+theorem C18_fits_alloc (sizes rooms : List Nat) (hF : RM.fits sizes rooms = true) :
+    ∃ g, RMP.CAlloc sizes rooms g := RMP.fits_alloc hF
+
+/-- the hypotheses are satisfiable with a non-trivial listing (see `Proofs/RoomsProofs.lean` for the
+    evaluation of `fits` and `possibleByCourse` on this instance) -/
+example : RM.orderOk [3, 0, 5, 3] [2, 3, 0, 1] = true := by decide
+
+/-- **kind names.** `RM.kindNames` is the comma-joined `RMP.kindNameLists`, and a name is listed for
+    course `c` exactly if it names a kind with at least one room whose capacity is a possible room
+    size listed for `c` (after fix F8). -/
+theorem C18_kindNames (sizes order : List Nat) (kinds : List RM.Kind) :
+    RM.kindNames sizes order kinds = (RMP.kindNameLists sizes order kinds).map RM.joinComma ∧
+    ∀ c name, name ∈ (RMP.kindNameLists sizes order kinds).getD c [] ↔
+      ∃ k ∈ kinds, k.name = name ∧ 0 < k.quantity ∧
+        k.capacity ∈ (RM.possibleByCourse sizes order (RMP.kindRooms kinds)).getD c [] :=
+  ⟨RMP.kindNames_eq sizes order kinds, RMP.mem_kindNameLists sizes order kinds⟩
+
+/-- every course that takes place is offered at least one kind name -/
+theorem C18_kindNames_nonempty (sizes order : List Nat) (kinds : List RM.Kind)
+    (hO : RM.orderOk sizes order = true) (hF : RM.fits sizes (RMP.kindRooms kinds) = true) (c : Nat)
+    (hc : c < sizes.length) (hpos : 0 < sizes.getD c 0) :
+    (RMP.kindNameLists sizes order kinds).getD c [] ≠ [] :=
+  RMP.kindNameLists_nonempty hO hF c hc hpos
+
+/-- `io::rooms::read`: the kinds are a permutation of the input in descending capacity order, and the
+    room list is their expansion, already descending -/
+theorem C18_readKinds (ks : List RM.Kind) :
+    (RM.readKinds ks).2.Perm ks ∧
+    (RM.readKinds ks).2.Pairwise (fun a b => b.capacity ≤ a.capacity) ∧
+    (RM.readKinds ks).1 = RMP.kindRooms (RM.readKinds ks).2 ∧
+    RM.sortDesc (RM.readKinds ks).1 = (RM.readKinds ks).1 :=
+  ⟨RMP.readKinds_snd_perm ks, RMP.readKinds_snd_desc ks, RMP.readKinds_fst ks, RMP.sortDesc_readKinds ks⟩
+
+#print axioms C18_byCourse_sound
+#print axioms C18_byCourse_nonempty
+#print axioms C18_specSound
+#print axioms C18_kindNames
+#print axioms C18_spec_meaning
 
 end Props
